@@ -427,16 +427,25 @@ def run(ctx):
         for e in exits
     )
 
+    # what cst_scanner calls its output list and its character stack: the two plain locals it hands to cst_scan
+    pairs = {
+        tuple(norm(a) for a in c.args)
+        for c in iter_own(scanner.node)
+        if isinstance(c, ast.Call) and norm(c.func) == "cst_scan" and len(c.args) == 2 and all(isinstance(a, ast.Name) for a in c.args)
+    }
+    ctx.need(len(pairs) == 1, "cst_scanner no longer calls cst_scan(<output list>, <stack>) with one pair of locals: {}".format(sorted(pairs)))
+    out2, stk2 = next(iter(pairs))
+
     def scan_summary(st, call):
         args = [norm(a) for a in call.args]
-        if args != ["scanned", "stack"]:
+        if args != [out2, stk2]:
             raise AnalysisError("cst_scan called with {} at line {}".format(args, call.lineno))
         a = st.copy()
         b = st.copy()
-        b.buf["stack"] = CLEAN
+        b.buf[stk2] = CLEAN
         b.emitted_any = True
         b.alias = {}
-        return [a, b] if st.buf["stack"] != CLEAN else [a]
+        return [a, b] if st.buf[stk2] != CLEAN else [a]
 
     ctx.ob(
         "C09.conserve.O4",
@@ -446,9 +455,9 @@ def run(ctx):
         "" if all_or_nothing else "cst_scan can return having emitted only part of the stack / without clearing it",
         line=scan.node.lineno,
     )
-    eng2 = Conserve(scanner.node, "scanned", {"stack"}, {}, {"cst_scan": scan_summary})
+    eng2 = Conserve(scanner.node, out2, {stk2}, {}, {"cst_scan": scan_summary})
     # the first statement `scanned, stack = [], []` initialises both
-    init2 = St({"stack": CLEAN}, {})
+    init2 = St({stk2: CLEAN}, {})
     body = list(scanner.node.body)
     start = 0
     for i, s in enumerate(body):
@@ -457,7 +466,7 @@ def run(ctx):
             continue
         if (
             isinstance(s, ast.Assign)
-            and norm(s.targets[0]).replace("(", "").replace(")", "") == "scanned, stack"
+            and norm(s.targets[0]).replace("(", "").replace(")", "") == "{}, {}".format(out2, stk2)
             and norm(s.value).replace("(", "").replace(")", "") == "[], []"
         ):
             start = i + 1
@@ -467,11 +476,11 @@ def run(ctx):
     ex2 = eng2.analyse(init2, sources=(scanner.params[0],))
     for e in ex2:
         # EMITTED at the very end is fine: the local buffer is dropped when the function returns
-        ok = e.buf["stack"] != DIRTY
+        ok = e.buf[stk2] != DIRTY
         ctx.ob(
             "C09.conserve.O4",
             scanner,
-            "exit state stack={}".format(e.buf["stack"]),
+            "exit state stack={}".format(e.buf[stk2]),
             ok,
             ""
             if ok
@@ -480,7 +489,7 @@ def run(ctx):
             line=scanner.node.lineno,
         )
     rets = [n for n in iter_own(scanner.node) if isinstance(n, ast.Return)]
-    ok = bool(rets) and all(isinstance(r.value, ast.Name) and r.value.id == "scanned" for r in rets)
+    ok = bool(rets) and all(isinstance(r.value, ast.Name) and r.value.id == out2 for r in rets)
     ctx.ob("C09.conserve.O5", scanner, "return scanned", ok, "" if ok else "cst_scanner returns something other than the output list", line=scanner.node.lineno)
     _flush(ctx, scanner, eng2)
     ctx.count("typestate_functions", 2)
@@ -503,9 +512,16 @@ def _lines(ctx):
     ck = [
         n
         for n in iter_own(one.node)
-        if isinstance(n, ast.Assign) and norm(n.targets[0]) == "common_kwargs"
+        # the dict of fields every node shares: the one local assigned a dict that carries value / line_no_start / line_no_end
+        if isinstance(n, ast.Assign)
+        and isinstance(n.targets[0], ast.Name)
+        and (
+            (isinstance(n.value, ast.Call) and norm(n.value.func) == "dict" and {"value", "line_no_start", "line_no_end"} <= {k.arg for k in n.value.keywords})
+            or (isinstance(n.value, ast.Dict) and {"value", "line_no_start", "line_no_end"} <= {getattr(k, "value", None) for k in n.value.keys})
+        )
     ]
-    ctx.need(len(ck) == 1, "common_kwargs assignment vanished")
+    ctx.need(len(ck) == 1, "the shared node-field dict (value / line_no_start / line_no_end) vanished from cst_parse_one_node")
+    ck_name = ck[0].targets[0].id
     v = ck[0].value
     kw = {}
     if isinstance(v, ast.Call) and norm(v.func) == "dict":
@@ -573,7 +589,7 @@ def _lines(ctx):
         c = r.value
         ok = (
             isinstance(c, ast.Call)
-            and any(k.arg is None and norm(k.value) == "common_kwargs" for k in c.keywords)
+            and any(k.arg is None and norm(k.value) == ck_name for k in c.keywords)
             and not any(k.arg in ("value", "line_no_start", "line_no_end") for k in c.keywords)
         )
         ctx.ob(
@@ -603,10 +619,20 @@ def _lines(ctx):
     deco = [norm(d) for d in one.node.decorator_list]
     ctx.ob("C09.lines", one, "@set_prev_node", deco == ["set_prev_node"], "" if deco == ["set_prev_node"] else "decorators changed: {}".format(deco), line=one.node.lineno)
     # cst_parser
-    state_init = [n for n in iter_own(parser.node) if isinstance(n, ast.Assign) and norm(n.targets[0]) == "state" and isinstance(n.value, ast.Dict)]
+    # the local holding the parser state: what is handed to cst_parse_one_node as `state=`
+    snames = {
+        norm(k.value)
+        for c in iter_own(parser.node)
+        if isinstance(c, ast.Call) and norm(c.func) == "partial" and c.args and norm(c.args[0]) == "cst_parse_one_node"
+        for k in c.keywords
+        if k.arg == "state" and isinstance(k.value, ast.Name)
+    }
+    ctx.need(len(snames) == 1, "cst_parser no longer hands one local as state= to cst_parse_one_node")
+    sname = snames.pop()
+    state_init = [n for n in iter_own(parser.node) if isinstance(n, ast.Assign) and norm(n.targets[0]) == sname and isinstance(n.value, ast.Dict)]
     if not state_init:
         # not a fresh literal: an alias / (shallow) copy of a module-level object?
-        other = [n for n in iter_own(parser.node) if isinstance(n, ast.Assign) and norm(n.targets[0]) == "state"]
+        other = [n for n in iter_own(parser.node) if isinstance(n, ast.Assign) and norm(n.targets[0]) == sname]
         ctx.need(len(other) == 1, "state initialisation vanished from cst_parser")
         v = other[0].value
         src = None
@@ -646,7 +672,7 @@ def _lines(ctx):
     ok = (
         len(maps) == 1
         and norm(maps[0].args[1]) == parser.params[0]
-        and norm(maps[0].args[0]) == "partial(cst_parse_one_node, state=state)"
+        and norm(maps[0].args[0]) == "partial(cst_parse_one_node, state={})".format(sname)
     )
     drained = any(
         isinstance(n, ast.Call) and norm(n.func) in ("deque", "list", "tuple") and n.args and n.args[0] in maps
@@ -661,12 +687,13 @@ def _lines(ctx):
         line=parser.node.lineno,
     )
     rets = [n for n in iter_own(parser.node) if isinstance(n, ast.Return)]
-    ok = len(rets) == 1 and norm(rets[0].value) == "tuple(state['parsed'])"
+    ok = len(rets) == 1 and norm(rets[0].value) == "tuple({}['parsed'])".format(sname)
     ctx.ob("C09.lines", parser, "return tuple(state['parsed'])", ok, "" if ok else "cst_parser returns {}".format([norm(r.value) for r in rets]), line=parser.node.lineno)
     # cst_parse is the plain composition
     pb = [norm(s) for s in parse.node.body if not (isinstance(s, ast.Expr) and isinstance(s.value, ast.Constant))]
-    comp = pb in (
-        ["scanned = cst_scanner(source)", "parsed = cst_parser(scanned)", "return parsed"],
-        ["return cst_parser(cst_scanner(source))"],
+    cn = lambda lines: ctx._canon(parse.mod.name, parse.short, " ; ".join(lines))
+    comp = cn(pb) in (
+        cn(["scanned = cst_scanner(source)", "parsed = cst_parser(scanned)", "return parsed"]),
+        cn(["return cst_parser(cst_scanner(source))"]),
     )
     ctx.ob("C09.lines", parse, "cst_parse = cst_parser . cst_scanner", comp, "" if comp else "cst_parse is no longer the plain composition: {}".format(pb), line=parse.node.lineno)
